@@ -222,6 +222,29 @@ fn observe_one<const N: usize, const OP: usize, S: Src>(s: &mut S, a: usize, b: 
         }
         i += 1;
     }
+    // every visible element is live: not destroyed, not an element the operation handed to the caller, not twice
+    let ret_is_token = matches!(OP, 0..=6 | 9 | 12);
+    let mut i = 0;
+    while i < N {
+        if let Some(t) = buf.get(i) {
+            if drops(t.0) != 0 {
+                o.flags |= 4;
+            }
+            if ret_is_token && (t.0 as u16 == ret || t.0 as u16 == ret2) {
+                o.flags |= 8;
+            }
+            let mut j = 0;
+            while j < i {
+                if let Some(u) = buf.get(j) {
+                    if u.0 == t.0 {
+                        o.flags |= 16;
+                    }
+                }
+                j += 1;
+            }
+        }
+        i += 1;
+    }
     let mut it = buf.iter();
     while let Some(t) = it.next() {
         if o.iter_n < CAP {
@@ -250,7 +273,7 @@ fn observe_one<const N: usize, const OP: usize, S: Src>(s: &mut S, a: usize, b: 
     o.drops_extra[5] = drops(0x40);
     o.drops_extra[6] = drops(0xc0);
     o.drops_extra[7] = drops(0xa0);
-    o.flags = (bad_drop() as u8) | ((bad_read() as u8) << 1);
+    o.flags |= (bad_drop() as u8) | ((bad_read() as u8) << 1);
     o
 }
 
@@ -268,7 +291,8 @@ pub fn two_buffers<const N: usize, const OP: usize, const P: u32, S: Src>(s: &mu
     }
     let oa = observe_one::<N, OP, S>(s, a, b, len, true);
     let ob = observe_one::<N, OP, S>(s, a, b, len, false);
-    chk!(oa.flags == 0 && ob.flags == 0, "no destructor or clone ran on a slot that holds no live element");
+    chk!(oa.flags & 3 == 0 && ob.flags & 3 == 0, "no destructor or clone ran on a slot that holds no live element");
+    chk!(oa.flags & 28 == 0 && ob.flags & 28 == 0, "every element visible afterwards is live: not destroyed, not handed to the caller by the operation, not duplicated");
     chk!(oa.ret == ob.ret && oa.ret2 == ob.ret2, "the result does not depend on the layout or on unoccupied bytes");
     chk!(oa.len == ob.len, "the length afterwards does not depend on the layout or on unoccupied bytes");
     chk!(same(&oa.ids, &ob.ids, N + 1), "the contents afterwards do not depend on the layout or on unoccupied bytes");
